@@ -33,6 +33,19 @@ def make_copy(dst):
 
 
 def apply(m, root):
+    if "edits" in m:
+        # a list of regular-expression substitutions (local renames and the like); every one must match at least once
+        import re
+        for e in m["edits"]:
+            p = os.path.join(root, "src", e["file"])
+            s = open(p).read()
+            lo = s.index(e["from"]) if e.get("from") else 0
+            hi = s.index(e["to"], lo) if e.get("to") else len(s)
+            body, n = re.subn(e["re"], e["sub"], s[lo:hi])
+            if n == 0:
+                return "edit %r matches nothing in %s" % (e["re"], e["file"])
+            open(p, "w").write(s[:lo] + body + s[hi:])
+        return None
     p = os.path.join(root, "src", m["file"])
     s = open(p).read()
     n = s.count(m["old"])
